@@ -121,6 +121,7 @@ pub fn run_child(ctx: &mut Ctx) {
         let config = TranslatorConfig::local_config(&base).unwrap();
         let xd = base.join("xet").join("xorbs");
         let inner = Arc::new(tp.external_run_async_task(async move { LocalClient::new(&xd, None) }).unwrap().unwrap());
+        let inner_for_retry = inner.clone();
         let ctl = Arc::new((Mutex::new(Ctl::default()), Condvar::new()));
         // fault plan: which task ids fail (by spawn order), whether a shard upload fails; scenario 0..: each single put in turn
         let many_shards = std::env::var("HF_XET_MDB_SHARD_MIN_TARGET_SIZE").ok().and_then(|v| v.parse::<u64>().ok()).map_or(false, |v| v < 100_000);
@@ -244,6 +245,47 @@ pub fn run_child(ctx: &mut Ctx) {
         ctx.stat_add("tasks", task_hash.len() as u64);
         ctx.case(fnv(trace.join(",").as_bytes()), task_hash.len() >= 2);
         { let (m, cv) = &*ctl; m.lock().unwrap().abort = true; cv.notify_all(); }
+        // ---- retry (C16): after a session that failed, the same process uploads the same files again on the same directories
+        // with a store that works; the retry reports success, so every file must be reconstructible from the store (nothing the
+        // failed session left behind - in the session directory, the shard cache or in-memory state - may stand in for an xorb
+        // that never reached the store)
+        if fin.is_err() && sc % 2 == 0 {
+            let _ = take_events();
+            let client2: Arc<dyn Client + Send + Sync> = inner_for_retry.clone();
+            let (cfg3, tp3) = (config.clone(), tp.clone());
+            let retry = tp.external_run_async_task(async move { FileUploadSession::new_with_client(cfg3, tp3, client2).await }).unwrap();
+            if let Ok(session2) = retry {
+                let mut ptrs: Vec<(PointerFile, Vec<u8>)> = Vec::new();
+                let mut all_ok = true;
+                for (fi, data) in files.iter().enumerate() {
+                    let cl = session2.start_clean(format!("r{fi}"));
+                    let d2 = data.clone();
+                    let r = tp.external_run_async_task(async move { let mut cl = cl; cl.add_data(&d2).await?; cl.finish().await }).unwrap();
+                    match r { Ok((ptr, _)) => ptrs.push((ptr, data.clone())), Err(_) => { all_ok = false; } }
+                }
+                let fin2 = tp.external_run_async_task(async move { session2.finalize().await }).unwrap();
+                if all_ok && fin2.is_ok() {
+                    ctx.stat("retry_sessions_ok");
+                    let (dl_cfg, tp4) = (config.clone(), tp.clone());
+                    if let Ok(downloader) = tp.external_run_async_task(async move { FileDownloader::new(dl_cfg, tp4).await }).unwrap() {
+                        let downloader = Arc::new(downloader);
+                        for (pi, (ptr, bytes)) in ptrs.iter().enumerate() {
+                            let out_path = base.join(format!("retry-dl-{pi}"));
+                            let _ = std::fs::remove_file(&out_path);
+                            let (dlr, p2, op) = (downloader.clone(), ptr.clone(), OutputProvider::File(FileProvider::new(out_path.clone())));
+                            let res = tp.external_run_async_task(async move { dlr.smudge_file_from_pointer(&p2, &op, None, None).await }).unwrap();
+                            let got = std::fs::read(&out_path).unwrap_or_default();
+                            let good = matches!(res, Ok(n) if n as usize == bytes.len()) && &got == bytes;
+                            if !good {
+                                ctx.fail("C16", "retry-after-failure-not-reconstructible", format!("a session failed (an upload was refused); the retry of the same {} file(s) in the same process reported success, but file {pi} ({} bytes) cannot be reconstructed from the store: {}", ptrs.len(), bytes.len(), match &res { Ok(n) => format!("{n} bytes, content differs"), Err(e) => format!("{e}") }),
+                                         format!("{{\"suite\":\"session_faults\",\"seed\":{},\"scenario\":{},\"retry\":true}}", ctx.seed, sc));
+                            }
+                            let _ = std::fs::remove_file(&out_path);
+                        }
+                    }
+                } else { ctx.stat("retry_sessions_not_ok"); }
+            }
+        }
         let _ = std::fs::remove_dir_all(&base);
     }
     utils::verif_hooks::set_event_callback(None);
